@@ -439,7 +439,7 @@ func (e *eventHandlerStore) off(eventName string, handler ...reflect.Value) {
 	e.mu.Lock()
 	defer e.mu.Unlock()
 
-	if handler == nil {
+	if len(handler) == 0 {
 		delete(e.events, eventName)
 		delete(e.eventsOnce, eventName)
 		vhook.Event("hs.offall", "o", e, "e", eventName)
